@@ -283,6 +283,8 @@ impl AsyncRead for SimStream {
             w.wake();
         }
         this.sim.mark(0x10 + (side == Side::Server) as u64);
+        let (id, t) = (this.id, this.t0.elapsed());
+        this.sim.ev(|| format!("t={t:?} net[{id}] {side:?} read {n}B"));
         Poll::Ready(Ok(()))
     }
 }
@@ -344,6 +346,8 @@ impl AsyncWrite for SimStream {
             w.wake();
         }
         this.sim.mark(0x20 + (side == Side::Server) as u64);
+        let id = this.id;
+        this.sim.ev(|| format!("t={now:?} net[{id}] {side:?} write {n}B of {}B {}", data.len(), hex(&data[..n.min(24)])));
         Poll::Ready(Ok(n))
     }
 
@@ -480,4 +484,12 @@ pub fn runtime(seed: u64) -> tokio::runtime::Runtime {
         .rng_seed(tokio::runtime::RngSeed::from_bytes(&b))
         .build()
         .expect("harness: tokio runtime")
+}
+
+fn hex(b: &[u8]) -> String {
+    let mut s = String::new();
+    for x in b {
+        s.push_str(&format!("{x:02x}"));
+    }
+    s
 }
